@@ -235,7 +235,7 @@ def run_range(agg, binp, prop, seed, start, count, tier, tag, extra=None, timeou
             tail = open(r["stderr"], errors="replace").read()[-600:]
             agg.inconclusive.append(f"worker died outside a case rc={r['rc']} ({tag}): {tail}")
             return
-        stderr_tail = open(r["stderr"], errors="replace").read()[-1500:]
+        stderr_tail = open(r["stderr"], errors="replace").read()[-6000:]
         kind, where = classify_crash(r["rc"], pl, stderr_tail)
         # confirm on an isolated re-run of that single case
         clog = os.path.join(RUN, f"{prop}-{tag}-confirm-{open_case}.log")
@@ -247,7 +247,7 @@ def run_range(agg, binp, prop, seed, start, count, tier, tag, extra=None, timeou
             agg.viol.extend(dict(v, variant=variant) for v in pl2["viol"])
             agg.add_stats(pl2["stats"])
         else:
-            st2 = open(r2["stderr"], errors="replace").read()[-1500:]
+            st2 = open(r2["stderr"], errors="replace").read()[-6000:]
             kind2, where2 = classify_crash(r2["rc"], pl2, st2)
             if r2["timed_out"]:
                 agg.inconclusive.append(f"confirmation run of case {open_case} hit the wall-clock limit")
@@ -282,7 +282,9 @@ def classify_crash(rc, pl, stderr_tail):
         fr = re.search(r"#\d+ 0x[0-9a-f]+ in ((?:rosu_pp|rosu_map)[^ ]*)", stderr_tail)
         return "asan:" + m.group(1), (fr.group(1) if fr else "unknown")
     if "ThreadSanitizer" in stderr_tail:
-        return "tsan", "unknown"
+        k = re.search(r"WARNING: ThreadSanitizer: ([a-z -]+)", stderr_tail)
+        fr = re.search(r"#\d+ ((?:rosu_pp|rosu_map)[^ ]*)", stderr_tail)
+        return "tsan:" + (k.group(1).strip().replace(" ", "-") if k else "report"), (fr.group(1) if fr else "unknown")
     if rc < 0:
         try:
             return "signal:" + signal.Signals(-rc).name, "unknown"
